@@ -89,6 +89,15 @@ CHECKS = {
             '(<=3) of molecules with differently configured force fields through ONE processor instance. Oracle: fractions.Fraction mean over '
             'positioned constituents, NaN iff their weight sum is zero, bounding box, equivariance.',
             'At most 4 constituents per particle; quick runs the n=4 tuples with <=3 distinct weights (thorough: all 625).', '§4 C09'),
+    'C10': ('B', 'bounded exhaustive product of element pairs x distances around the threshold x residue/molecule relations x reference-block knowledge x fudge x mode on the real MakeBonds, conjunction oracle with published radii; small systems with all gap assignments and atom orders',
+            'model_checking',
+            'Pair level: every ordered pair of {H,C,N,O,S,Se,X} x distance {0.5, 1-1e-6, 1+1e-6, 1.5} x threshold x 4 residue/molecule '
+            'relations (incl. two input molecules with identical chain/resname/resid) x 5 kinds of reference-block knowledge x fudge '
+            '{0.8,1.0,1.2} x mode {name,distance,both,none} x pre-existing bond. System level: 3-4 atoms in 2-3 residues on a line, all '
+            'bonding/non-bonding gap assignments, atom orders, modes. Every pair of every case is judged by the conjunction of the '
+            'statement (Bondi radii written into the check); atoms, pre-existing bonds, whole residues and connected residue graphs are '
+            'checked on the returned molecules.',
+            'Geometries are collinear and at most 4 atoms; the non-bond conjunct is applied where a reference block is consulted.', '§4 C10'),
     'C07': ('A+D', 'explicit-state BFS over deferred-writer histories with a dict file-system model; exhaustive crash-point/torn-write enumeration of every finalisation; audit-hook monitor over all library writers; full product of a CLI run alphabet through the script\'s own entry() bound to real sub-processes',
             'model_checking',
             'Four layers. (1) every enabled operation (open w/a/r+/wb incl. re-opens, files appearing from outside, write, close) in every '
